@@ -4,7 +4,7 @@
 use mccore::alpha::two;
 use mccore::{jn, Bad};
 use num_traits::{One, Zero};
-use refmodel::{be32, consts, ec_mul, from_be, invm, n, negm, q, r, sqrt_mod, F2, Fld, Fmt, Fq as RFq, Pt, N};
+use refmodel::{be32, consts, ec_mul, from_be, n, negm, q, r, sqrt_mod, F2, Fld, Fmt, Fq as RFq, Pt, N};
 use serde_json::{json, Value};
 use sm9_core::{AffineG1, AffineG2, Fq, Fq2, Fr, Group, Gt, G1, G2};
 use std::collections::HashMap;
